@@ -246,6 +246,55 @@ static void helper_alg64_on32(vf::Rng &rng, long n, FILE *out) {
     }
 }
 
+// Directed family for the half-word (64U) divide: divisors whose quotient-digit estimate is up to 2 too high (top half just
+// above 2^(h-1) after normalisation, bottom half close to 2^h) and dividends constructed so that a *partial remainder* sits on a
+// boundary {d-1, d-2, 0, 1}: either the final one ((hi:lo) mod d = t) or the one after the first digit ((hi:top(lo)) mod d = t).
+// A random operand meets these with probability ~2^-W (seed C19-5: second correction of the low digit off by one).
+template <typename N, typename D>
+static void helper_boundary_rem(vf::Rng &rng, long n, FILE *out) {
+    constexpr unsigned W = sizeof(N) * 8, H = W / 2;
+    for (long i = 0; i < n; ++i) {
+        vf::begin_case(g_case++);
+        N top = N((N(1) << (H - 1)) + N(rng.below(4)));
+        if (rng.below(4) == 0) top = N(boundary_word<N>(rng) >> H) | (N(1) << (H - 1));
+        N bot = N(((N(1) << H) - 1) - N(rng.below(rng.below(2) ? 4 : 4096)));
+        N d   = N((top << H) | bot);
+        d >>= rng.below(3) ? 0 : rng.below(W - 1);
+        if (d == 0) d = N(1);
+        N t;
+        switch (rng.below(4)) { case 0: t = N(d - 1); break; case 1: t = (d > 1) ? N(d - 2) : N(0); break; case 2: t = 0; break; default: t = N(1 % d); }
+        // the helper divides hi * 2^W (the low word is divided separately and its remainder added at the end), so the partial
+        // remainders depend on hi only: solve hi * 2^W = t or hi * 2^H = t (mod d) when 2 is invertible (d odd)
+        N hi = N(boundary_word<N>(rng) % d);
+        if (d & 1) {
+            D m = rng.below(2) ? ((D(1) << H) % D(d)) : ((((D(1) << H) % D(d)) * ((D(1) << H) % D(d))) % D(d));
+            // modular inverse of m by extended Euclid on signed double words
+            typedef __int128 S;
+            S r0 = S(d), r1 = S(m), s0 = 0, s1 = 1;
+            while (r1 != 0) { S q = r0 / r1, tmp = r0 - q * r1; r0 = r1; r1 = tmp; tmp = s0 - q * s1; s0 = s1; s1 = tmp; }
+            if (r0 == 1) {
+                S inv = s0 % S(d); if (inv < 0) inv += S(d);
+                // (t * inv) mod d without overflowing 128 bits: double-and-add
+                D acc = 0, base = D(inv), e = D(t);
+                while (e) { if (e & 1) { acc += base; if (acc >= D(d)) acc -= D(d); } base += base; if (base >= D(d)) base -= D(d); e >>= 1; }
+                hi = N(acc);
+            }
+        }
+        N lo = rng.below(2) ? N(0) : boundary_word<N>(rng);
+        N h = hi, l = lo;
+        DoubleSize<N, 64U>::Divide(h, l, d, ((W - 1U) - Platform::FindLastBit(d)));
+        std::vector<long> v = bytes_of_word(lo);
+        v.resize(sizeof(N), 0);
+        for (long x : bytes_of_word(hi)) v.push_back(x);
+        std::string jb, ja, jr, jret;
+        vf::json_ints(jb, v);
+        vf::json_ints(ja, bytes_of_word(d));
+        vf::json_ints(jr, bytes_of_word(l));
+        vf::json_ints(jret, bytes_of_word(h));
+        fprintf(out, "{\"op\":\"helperdiv\",\"wb\":%u,\"bits\":%u,\"b\":%s,\"a\":%s,\"r\":%s,\"ret\":%s,\"k\":0,\"idx\":0,\"zero\":0}\n", W, 2 * W, jb.c_str(), ja.c_str(), jr.c_str(), jret.c_str());
+    }
+}
+
 int main(int argc, char **argv) {
     vf::install_handlers();
     if (argc < 2) return 2;
@@ -288,6 +337,8 @@ int main(int argc, char **argv) {
         helper_events<SizeT32>(rng, n / 4, out, false);
         helper_events<SizeT64>(rng, n, out, false);
         helper_alg64_on32(rng, n, out);
+        helper_boundary_rem<SizeT32, unsigned long long>(rng, n / 2, out);
+        helper_boundary_rem<SizeT64, unsigned __int128>(rng, n / 2, out);
         fclose(out);
         vf::g_trace = nullptr;
         vf::end_cases();
